@@ -1105,6 +1105,28 @@ pub fn forms_event_prep(t: &Tier, op: &'static str, kx: Kind, xb: &Bits, y: &YSp
     (ev, key)
 }
 
+/// One operator with a native integer right operand on every kind that admits the subject: the six forms,
+/// and the integer replaced by a vector built from it in every kind that can hold the integer type.
+fn c20_int_case(t: &Tier, op: &'static str, x: &Bits, ty: IntTy, v: u128, rot: usize, stats: &mut Stats) -> Vec<Value> {
+    let mut groups: Vec<(String, Value, u64)> = Vec::new();
+    for kx in ALL_KINDS.iter().copied().filter(|k| k.admits(x.len())) {
+        // (kinds too small for the integer are skipped by forms_event_prep)
+        const IV: [&str; 17] = ["iv:D", "iv:A", "iv:F128x1", "iv:F64x4", "iv:F128x4", "iv:F64x2", "iv:Fux4", "iv:F32x4", "iv:F16x4", "iv:F8x4",
+                                "iv:F64x1", "iv:Fux1", "iv:F32x1", "iv:F16x1", "iv:F8x1", "iv:F8x2", "iv:F8x3"];
+        let mut forms: Vec<&'static str> = vec!["vv", "vr", "rv", "rr", "av", "ar"];
+        forms.extend(IV.iter().copied().filter(|f| Kind::from_name(&f[3..]).map(|k| k.admits(ty.width())).unwrap_or(false)));
+        let preps = [Prep::Fresh, Prep::Heap, Prep::Spare, Prep::Shrunk];
+        let (ev, key) = forms_event_prep(t, op, kx, x, &YSpec::Int(ty, v), None, &Args::default(), &forms, preps[rot % preps.len()], Prep::Fresh);
+        stats.execs += forms.len() as u64;
+        if let Some(g) = groups.iter_mut().find(|g| g.0 == key) {
+            g.2 += 1;
+        } else {
+            groups.push((key, ev, 1));
+        }
+    }
+    groups.into_iter().map(|(_, mut e, n)| { e["cov"] = json!(n); e }).collect()
+}
+
 pub fn drive_c20(t: &Tier, sink: &mut Sink, stats: &mut Stats) {
     let mut rng = Rng::new(t.seed ^ 0xC20);
     let xs = pool(t, &mut rng, t.q(129, 257), t.quick, t.q(1, 5));
@@ -1146,24 +1168,7 @@ pub fn drive_c20(t: &Tier, sink: &mut Sink, stats: &mut Stats) {
             if is_div && v == 0 {
                 v = 5;
             }
-            let mut groups: Vec<(String, Value, u64)> = Vec::new();
-            for kx in ALL_KINDS.iter().copied().filter(|k| k.admits(x.len())) {
-                // the integer replaced by a vector built from it, in every kind that can hold the integer type
-                // (kinds too small for it are skipped by forms_event_prep)
-                const IV: [&str; 17] = ["iv:D", "iv:A", "iv:F128x1", "iv:F64x4", "iv:F128x4", "iv:F64x2", "iv:Fux4", "iv:F32x4", "iv:F16x4", "iv:F8x4",
-                                        "iv:F64x1", "iv:Fux1", "iv:F32x1", "iv:F16x1", "iv:F8x1", "iv:F8x2", "iv:F8x3"];
-                let mut forms: Vec<&'static str> = vec!["vv", "vr", "rv", "rr", "av", "ar"];
-                forms.extend(IV.iter().copied().filter(|f| Kind::from_name(&f[3..]).map(|k| k.admits(ty.width())).unwrap_or(false)));
-                let preps = [Prep::Fresh, Prep::Heap, Prep::Spare, Prep::Shrunk];
-                let (ev, key) = forms_event_prep(t, op, kx, x, &YSpec::Int(ty, v), None, &Args::default(), &forms, preps[rot % preps.len()], Prep::Fresh);
-                stats.execs += 9;
-                if let Some(g) = groups.iter_mut().find(|g| g.0 == key) {
-                    g.2 += 1;
-                } else {
-                    groups.push((key, ev, 1));
-                }
-            }
-            sink.emit(groups.into_iter().map(|(_, mut e, n)| { e["cov"] = json!(n); e }).collect());
+            sink.emit(c20_int_case(t, op, x, ty, v, rot, stats));
         }
         // shifts
         for op in ["shl", "shr"] {
@@ -1197,5 +1202,32 @@ pub fn drive_c20(t: &Tier, sink: &mut Sink, stats: &mut Stats) {
             }
         }
         sink.emit(groups.into_iter().map(|(_, mut e, n)| { e["cov"] = json!(n); e }).collect());
+    }
+    // saturated integer operands (all ones, all ones but one, top bit only) of every type against subjects
+    // shorter than, as long as and longer than the integer, whose low bit makes a carry / borrow run through
+    // the operand's all-ones words
+    for (ti, ty) in ALL_INTS.iter().copied().enumerate() {
+        let w = ty.width();
+        for (vi, v) in [ty.max(), ty.max() - 1, 1u128 << (w - 1), ty.max() >> 1].iter().copied().enumerate() {
+            for n in [w / 2, w, w + 1, w + 64, 192, 200] {
+                for xv in 0..3 {
+                    if t.quick && (ti + vi + n + xv) % 3 != 0 {
+                        continue;
+                    }
+                    let x: Bits = match xv {
+                        0 => { let mut b = zeros(n); b[0] = 1; b }
+                        1 => ones(n),
+                        _ => random_bits_uniform(&mut rng, n),
+                    };
+                    for op in ops {
+                        if matches!(op, "mul" | "div" | "rem") && n > t.q(66, 130) {
+                            continue;
+                        }
+                        rot += 1;
+                        sink.emit(c20_int_case(t, op, &x, ty, v, rot, stats));
+                    }
+                }
+            }
+        }
     }
 }
